@@ -67,3 +67,39 @@ pub fn real_sleep_ms(ms: u64) {
         libc::nanosleep(&ts, std::ptr::null_mut());
     }
 }
+
+/// Verifies that `std::time::Instant` and tokio timers follow the interposed clock and nothing else.
+pub fn self_check() -> Result<(), String> {
+    let a = std::time::Instant::now();
+    real_sleep_ms(3);
+    let b = std::time::Instant::now();
+    if b != a {
+        return Err(format!("Instant moved by {:?} during a real 3 ms sleep", b - a));
+    }
+    advance_ms(7);
+    let c = std::time::Instant::now();
+    if c - a != std::time::Duration::from_millis(7) {
+        return Err(format!("Instant moved by {:?} after advancing 7 ms", c - a));
+    }
+    // a tokio sleep fires exactly when the virtual clock reaches its deadline
+    let rt = tokio::runtime::Builder::new_current_thread()
+        .enable_time()
+        .build()
+        .map_err(|e| e.to_string())?;
+    let fired_at = rt.block_on(async {
+        let start = now_ns();
+        let mut s = Box::pin(tokio::time::sleep(std::time::Duration::from_millis(25)));
+        for _ in 0..200u32 {
+            if futures::poll!(s.as_mut()).is_ready() {
+                return Some((now_ns() - start) / 1_000_000);
+            }
+            advance_ms(1);
+            tokio::task::yield_now().await;
+        }
+        None
+    });
+    match fired_at {
+        Some(25) => Ok(()),
+        other => Err(format!("a 25 ms tokio sleep fired after {other:?} virtual ms")),
+    }
+}
